@@ -365,3 +365,55 @@ pub fn pick_edits(leaves: &[(String, Integer)], budget: usize, st: &mut u64) -> 
     }
     chosen
 }
+
+/// List-shape edits of a proof in its JSON form: for every array, the last (and the first) entry dropped; for every
+/// two arrays of the same length, the last entry dropped from both; for every length, the last entry dropped from
+/// all arrays of that length.  What is left proves less than the statement asks for: a verifier that walks its lists
+/// with `zip` (silently stopping at the shortest) instead of by position still says yes.
+pub fn array_drop_edits(v: &Value) -> Vec<(String, Value)> {
+    let arrays: Vec<(String, usize)> = composite_nodes(v).into_iter().filter_map(|p| v.pointer(&p).and_then(|x| x.as_array()).map(|a| (p.clone(), a.len()))).filter(|(_, n)| *n >= 1).collect();
+    let drop_last = |doc: &mut Value, path: &str| {
+        if let Some(a) = doc.pointer_mut(path).and_then(|x| x.as_array_mut()) {
+            a.pop();
+        }
+    };
+    let mut out = vec![];
+    for (p, n) in &arrays {
+        let mut d = v.clone();
+        drop_last(&mut d, p);
+        out.push((format!("{}: last of {} entries dropped", generic_path(p), n), d));
+        if *n >= 2 {
+            let mut d = v.clone();
+            if let Some(a) = d.pointer_mut(p).and_then(|x| x.as_array_mut()) {
+                a.remove(0);
+            }
+            out.push((format!("{}: first of {} entries dropped", generic_path(p), n), d));
+        }
+    }
+    // arrays that are not inside another array (the lists that run in parallel over the hidden positions)
+    let top: Vec<&(String, usize)> = arrays.iter().filter(|(p, _)| !arrays.iter().any(|(q, _)| q != p && p.starts_with(&format!("{}/", q)))).collect();
+    for i in 0..top.len() {
+        for j in i + 1..top.len() {
+            if top[i].1 == top[j].1 {
+                let mut d = v.clone();
+                drop_last(&mut d, &top[i].0);
+                drop_last(&mut d, &top[j].0);
+                out.push((format!("{} and {}: last of {} entries dropped from both", generic_path(&top[i].0), generic_path(&top[j].0), top[i].1), d));
+            }
+        }
+    }
+    let mut lens: Vec<usize> = top.iter().map(|t| t.1).collect();
+    lens.sort();
+    lens.dedup();
+    for n in lens {
+        let same: Vec<&&(String, usize)> = top.iter().filter(|t| t.1 == n).collect();
+        if same.len() >= 3 {
+            let mut d = v.clone();
+            for t in &same {
+                drop_last(&mut d, &t.0);
+            }
+            out.push((format!("all {} lists of {} entries: last entry dropped", same.len(), n), d));
+        }
+    }
+    out
+}
